@@ -47,6 +47,8 @@ def one(rng, method, pool, variant, size='small', flags=None, perturb=None):
     pollsize = rng.choice([1, 8, 8, 32])
     rounds = rng.choice([1, 2]) if size != 'crowd' else 3
     p = perturb if perturb is not None else rng.choice([0, 100, 300])
+    if size == 'crowd' and perturb is None:
+        p = rng.choice([300, 600, 900])    # wide windows after the pollers' unlock / before their next lock
     return [rng.below(1 << 30), p, m, pool, pairs, maxlog2, out, pollsize, variant, rounds,
             f'--pika:threads={threads}', '--pika:bind=none']
 
